@@ -161,3 +161,40 @@ func checkVariableLoops(c *Check) {
 		}
 	})
 }
+
+// R3.7: error recovery only moves forward. The statement loops of the parser terminate because every statement consumes at
+// least one token and because the recovery after a reported error (synchronize) never steps back: if it did, the statement that
+// raised the error would be parsed again from the same token, for ever. Decided over the call graph: in synchronize and in
+// everything it can reach, the only writes of the parser's cursor are increments.
+func checkRecoveryMovesForward(c *Check, L *Loaded) {
+	r := c.Rule("R3.7", "error recovery (synchronize and everything it calls) moves the token cursor only forwards", 1)
+	fi := L.Fn("src/parser.(*parser).synchronize")
+	if fi == nil {
+		r.Und("parser.(*parser).synchronize", token.NoPos, "function not found")
+		return
+	}
+	entry := L.SSAFunc(fi)
+	if entry == nil {
+		r.Und("parser.(*parser).synchronize", fi.Decl.Pos(), "no SSA form")
+		return
+	}
+	reach := L.Reachable(entry)
+	writes := L.FieldWrites(func(v *types.Var) bool { return isField(v, "parser", "parser", "cur") })
+	if len(writes) == 0 {
+		r.Und("parser.parser.cur", token.NoPos, "no writer of the cursor field found (field renamed?)")
+		return
+	}
+	n := 0
+	for _, w := range writes {
+		f := L.SSAFunc(w.Fn)
+		if f == nil || !reach[f] {
+			continue
+		}
+		n++
+		inc, isInc := w.Node.(*ast.IncDecStmt)
+		r.Decide(isInc && inc.Tok == token.INC, "parser.(*parser).synchronize|cursor write in "+L.QName(w.Fn.Obj), w.Node.Pos(), "the cursor is incremented", "the recovery after a reported error can move the cursor backwards or to a stored position ("+L.Src(w.Node)+"): the statement that raised the error is parsed again from the same token and the statement loops never end")
+	}
+	if n == 0 {
+		r.Und("parser.(*parser).synchronize|cursor writes", fi.Decl.Pos(), "synchronize reaches no write of the cursor: it cannot make progress")
+	}
+}
